@@ -436,6 +436,63 @@ pub fn run(tier: Tier) -> i32 {
             });
         }
     }
+    // ---- 2b. framing extremes on packets that an input filter steps over: two links stored one after the other
+    //      (so that non-matching packets follow each other), the damaged packet in the middle of the first link, the
+    //      filter selecting the second link / an absent link / the second link's FEE id or stave
+    let mut skip_jobs = 0u64;
+    {
+        let w = ws.iter().find(|w| w.name == "ml+ib-interleaved").expect("two-link witness");
+        let a: Vec<fp_model::grammar::PacketT> = w.links[0].clone();
+        let b: Vec<fp_model::grammar::PacketT> = w.links[1].clone();
+        let lb = b[0].packet.rdh.link_id.to_string();
+        let fb = b[0].packet.rdh.fee_id;
+        let filters: Vec<Vec<String>> = vec![
+            vec!["--filter-link".into(), lb.clone()],
+            vec!["--filter-link".into(), "31".into()],
+            vec!["--filter-fee".into(), fb.to_string()],
+            vec!["--filter-its-stave".into(), format!("L{}_{}", (fb >> 12) & 7, fb & 0x3F)],
+        ];
+        type Mut = (&'static str, fn(&mut Rdh));
+        let muts: Vec<Mut> = vec![
+            ("offset_next=0", |r| r.offset_next = 0),
+            ("offset_next=16", |r| r.offset_next = 16),
+            ("offset_next=63", |r| r.offset_next = 63),
+            ("offset_next=65", |r| r.offset_next = 65),
+            ("offset_next=10065", |r| r.offset_next = 10065),
+            ("offset_next=0xFFFF", |r| r.offset_next = 0xFFFF),
+            ("memory_size=0", |r| r.memory_size = 0),
+            ("header_id=0", |r| r.header_id = 0),
+            ("system_id=0", |r| r.system_id = 0),
+        ];
+        let skip_modes: Vec<Vec<&'static str>> = vec![vec!["check", "sanity"], vec!["check", "all", "its"], vec!["view", "rdh"], vec!["view", "its-readout-frames"], vec!["-o", "out.raw"]];
+        let mut sj: Vec<(Vec<u8>, Vec<&'static str>, Vec<String>, bool, String)> = Vec::new();
+        for (name, f) in &muts {
+            for pos in [1usize, a.len() / 2, a.len() - 1] {
+                let mut pa = a.clone();
+                f(&mut pa[pos].packet.rdh);
+                let bytes: Vec<u8> = pa.iter().chain(b.iter()).flat_map(|p| p.packet.bytes()).collect();
+                for (mi, m) in skip_modes.iter().enumerate() {
+                    for (fi, fl) in filters.iter().enumerate() {
+                        if !tier.is_thorough() && (mi + fi + pos) % 2 == 1 {
+                            continue;
+                        }
+                        sj.push((bytes.clone(), m.clone(), fl.clone(), (mi + fi) % 3 == 0, format!("{name} at packet {pos} of the first link, filter {:?}", fl)));
+                    }
+                }
+            }
+        }
+        let res = par_map(&sj, |_, (bytes, m, fl, stdin, label)| {
+            let o: Vec<&str> = fl.iter().map(|x| x.as_str()).collect();
+            cli_case(bytes, m, &o, *stdin, label)
+        });
+        for ((bytes, m, fl, stdin, _), r) in sj.iter().zip(res.iter()) {
+            skip_jobs += 1;
+            if let Some((sig, d)) = r {
+                rep.violation(Violation { signature: format!("{sig}:stepped-over-packet"), description: d.clone(), replay: json!({"kind": "cli", "args_mode": m, "args_opts": fl, "stdin": stdin, "input_hex": hex(bytes)}) });
+            }
+        }
+    }
+    rep.cov("cli_runs_with_damaged_stepped_over_packets", json!(skip_jobs));
     rep.cov("states", json!(states));
     rep.cov("transitions", json!(transitions + jobs.len() as u64));
     rep.cov("traces_validated_against_impl", json!(transitions + jobs.len() as u64));
